@@ -73,6 +73,11 @@ def _why(spec_id, o, items, d, f, ci=False):
                 cand = 'several-spellings-equal'
             if rank[cand] > rank[label]:
                 label = cand
+    if label.endswith('distinct-aliases'):
+        # with ignore_alias_conflicts the strategies pick different spellings (values and verdicts differ); without it both
+        # report the conflict and only the further errors differ: two findings, so that a verdict difference in the
+        # second situation is never covered by the first
+        label += ':ignored-conflicts' if o.get('ignore_alias_conflicts') else ':reported-conflicts'
     return label
 
 
